@@ -18,6 +18,8 @@ UNITS = {
                       about="the tokenizer closure of posix::split_path, verified as the function it is, against the recursive definition of PATH segments"),
     "quote": dict(template="units/quote.vt.rs", rlimit=50, tops=["Exec::display_escape"],
                   about="Exec::display_escape / nice_char: the result is one shell word for the string"),
+    "wincmd": dict(template="units/wincmd.vt.rs", rlimit=50, tops=["assemble_cmdline", "append_quoted"],
+                   about="the cfg(windows) functions assemble_cmdline / append_quoted against the Microsoft command-line parsing rules written as a recursive spec function; the round trip is a proved lemma"),
     "pstate": dict(template="units/pstate.vt.rs", rlimit=50, tops=["os_wait_timeout", "waitpid", "send_signal", "drop"],
                    about="the Popen child-state machine (waitpid/wait/wait_timeout/poll/terminate/kill/send_signal/Drop) against the one-child process model"),
 }
@@ -41,8 +43,7 @@ PROPS = {
                 bounded_scenarios=[("c15_path_lookup", "198 lookups on a real file system: all 64 placements of {nothing, non-executable file, directory, executable} under 3 PATH directories x 3 PATH spellings (plain, with empty and duplicate entries), plus 6 slash / explicit-executable cases")]),
     "C17": dict(units=["spawn", "exec"], kani=["w_chdir"], level="proof",
                 bounded_scenarios=[("c17_child_allocs", "96 spawns with a counting allocator armed in the forked child: 8 PATH shapes (longest entry first/middle/last/single/40 entries/empty entries) x 3 cwd lengths (none, 4, 500 bytes) x {exec succeeds, program not found} x {small, 50 args + 60 env entries + pipes}")]),
-    "C20": dict(units=[], kani=[], level="other",
-                explanation="BOUNDED stand-in, not a proof: assemble_cmdline and append_quoted live in the cfg(windows) module and are extracted mechanically into a native program that round-trips argument vectors through an independent implementation of the Microsoft parsing rules.",
+    "C20": dict(units=["wincmd"], kani=[], level="proof",
                 natives=[("units/native/wincmd.nt.rs", "28907 argument vectors: 1 argument of length 0..4, pairs (length 0..2, first 400 of length 0..4) and triples of length 0..2 over the alphabet {a, space, tab, newline, double quote, backslash, U+00E9}; 57 arguments containing NUL")]),
     "C19": dict(units=["quote"], kani=[], level="proof",
                 bounded_scenarios=[("c19_shell_roundtrip", "1778 argument vectors (1-2 arguments of length 0..3 over the alphabet a,space,',\",$,*,\\,newline,e-acute, plus 24 hand-picked strings) printed through Debug and evaluated by the real /bin/sh; one two-stage pipeline")]),
@@ -85,6 +86,12 @@ SCENARIOS = [
 # --------------------------------------------------------------------------------------------- assumptions
 # free-text trusted base per unit (in addition to the mechanically listed external_body/axiom items)
 UNIT_TRUST = {
+    "wincmd": [
+        "the Microsoft rules (units/models/winparse.rs: parse_arg / parse_all / skip_ws) are a transcription of the documented 2008+ C runtime rules, which CommandLineToArgvW shares for every argument after the program name; argv[0]'s special rule is outside the statement. The same rules run as executable code in the bounded native check, which ties the transcription to 28907 concrete vectors",
+        "platform shims (units/models/winshims.rs): an OsString is its UTF-16 code units; encode_wide / Iterator::any / collect / OsString::from_wide / io::Error::from_raw_os_error by their std contracts; R6: cmdline.extend(arg.encode_wide()) = extend_wide (appends the units)",
+        "precondition: every argument is at most 0x3fffffff units long -- `num_backslashes` is an i32 and `num_backslashes * 2 + 1` must not overflow (CreateProcessW limits the whole command line to 32767 units, so longer arguments cannot reach a child)",
+        "the code is compiled only on Windows; it is verified here as extracted text against the shims, never run on Windows",
+    ],
     "splitpath": [
         "R9': split_path returns std::iter::from_fn(closure); the closure body is verified as a function whose captured `mut path` is the parameter `path: &mut &OsStr` (assignments `path = e` become `*path = e`); that from_fn calls the closure once per next() is std",
         "R6: bytes.iter().position(|&c| c == b':') = find_colon (index of the first colon); OsStr::from_bytes / OsStr::new(\"\") by their std contracts",
